@@ -17,7 +17,7 @@ git ls-files --others --exclude-standard | while read f; do rm -f "$f"; done
 run_demo() {
   if [ -f $SO/demo.diff ] && [ ! -d $DEMO ]; then
     (cd $WT && git apply $SO/demo.diff && { timeout 2400 cargo test --offline $DEMOARGS 2>&1 | tail -25; }; git apply -R $SO/demo.diff)
-  elif [ -f $DEMO/run_demo.sh ]; then (cd $DEMO && WT=$WT timeout 1800 sh ./run_demo.sh > /tmp/demo_$NAME.out 2>&1; rc=$?; tail -15 /tmp/demo_$NAME.out; echo "DEMO-EXIT=$rc")
+  elif [ -f $DEMO/run_demo.sh ]; then (cd $DEMO && WT=$WT timeout 1800 bash ./run_demo.sh > /tmp/demo_$NAME.out 2>&1; rc=$?; tail -15 /tmp/demo_$NAME.out; echo "DEMO-EXIT=$rc")
   else (cd $DEMO && timeout 1200 cargo test --offline 2>&1 | tail -15); fi; }
 echo "== demo WITH patch (expect failure)"; run_demo > $OUT/demo_with.log; grep -E "test result|FAILED|failed|DEMO-EXIT" $OUT/demo_with.log | head -5
 echo "== full suite WITH patch"; timeout 3000 cargo test --workspace --no-fail-fast --offline > /tmp/suite_$NAME.log 2>&1
